@@ -118,23 +118,14 @@ theorem payLen_header {o : POpts} {S : LSchema} {n : DNode} {ops : List Op} (h :
   simp only [headerOps] at h
   split at h
   · simp at h
-  · split at h
-    · obtain ⟨x1, y1, hx1, hy1, rfl⟩ := cat_eq_some h
-      obtain ⟨x2, y2, _, hy2, rfl⟩ := cat_eq_some hy1
-      obtain ⟨x3, y3, _, hy3, rfl⟩ := cat_eq_some hy2
-      obtain ⟨x4, y4, _, hy4, rfl⟩ := cat_eq_some hy3
-      simp only [Option.some.injEq] at hx1 hy4
-      subst hx1 hy4
-      simp only [payLen_append, payLen, wNum, length_leBytes]
-      have : P_METACOUNT = 1 := rfl
-      have : P_FLAGS = 4 := rfl
-      omega
-    · simp only [Option.some.injEq] at h
-      subst h
-      simp only [payLen, wNum, length_leBytes]
-      have : P_METACOUNT = 1 := rfl
-      have : P_FLAGS = 4 := rfl
-      omega
+  · obtain ⟨x1, y1, hx1, hy1, rfl⟩ := cat_eq_some h
+    obtain ⟨x2, y2, _, hy2, rfl⟩ := cat_eq_some hy1
+    simp only [Option.some.injEq] at hx1 hy2
+    subst hx1 hy2
+    simp only [payLen_append, payLen, wNum, length_leBytes]
+    have : P_METACOUNT = 1 := rfl
+    have : P_FLAGS = 4 := rfl
+    omega
 
 mutual
 theorem payLen_inst (o : POpts) (S : LSchema) : ∀ (n : DNode) (ops : List Op), instOps o S n = some ops → costN n + 2 ≤ payLen ops
